@@ -89,7 +89,7 @@ func checkNode(h int, idx int64, prefix uint64, l int) *vk.Failure {
 func check(c Case) *vk.Failure {
 	p, l := inverse(c.H, c.Index)
 	// the two oracles must agree (harness self-check)
-	if oi, _ := model.NewTree(int32(int64(1)<<uint(c.H+1) - 1)).Index(p, l); oi != c.Index {
+	if oi, _ := model.NewTree(int32(int64(1)<<uint(c.H+1)-1)).Index(p, l); oi != c.Index {
 		vk.Infra(fmt.Sprintf("inverse oracle disagrees with tree oracle at h=%d idx=%d", c.H, c.Index))
 		return nil
 	}
